@@ -98,7 +98,7 @@ def gen_case(rng: random.Random, tier: str) -> dict:
         elif fam == "xlsx_dimension":
             c.update({"ref": rng.choice(["A1:XFD1048576", "A1:ZZ100000", "A1:C3", "A1:XFD10"])})
         elif fam == "entities":
-            c.update({"target": rng.choice(["docx", "odt", "html", "epub"]), "depth": rng.choice([3, 9])})
+            c.update({"target": rng.choice(["docx", "odt", "html", "epub"]), "depth": rng.choice([3, 9]), "enc": rng.choice(["utf-8", "utf-8", "utf-16", "utf-16-be"])})
         elif fam == "deep":
             c.update({"fmt": rng.choice(["html", "rtf", "docx", "json", "odt"]), "depth": rng.choice([200, 900, 3000, 20000])})
             if c["fmt"] in ("html", "rtf", "json"):
@@ -193,17 +193,25 @@ def build_amp(c) -> tuple[bytes, str, int]:
             f'<!ENTITY a{i} "{("&a%d;" % (i - 1)) * 10}">' for i in range(1, c["depth"] + 1)) + "]>"
         ref = f"&a{c['depth']};"
         t = c["target"]
+        enc = c.get("enc", "utf-8")
+
+        def xml_bytes(text: str) -> bytes:
+            # the same document in another encoding XML parsers accept (a byte-level search for "<!DOCTYPE" does not see it)
+            if enc == "utf-8":
+                return text.encode()
+            text = text.replace('<?xml version="1.0"?>', '<?xml version="1.0" encoding="UTF-16"?>', 1)
+            return text.encode("utf-16") if enc == "utf-16" else b"\xfe\xff" + text.encode("utf-16-be")
         if t == "html":
             d = (ents + f"<html><body><p>{ref}</p></body></html>").encode()
             return d, "amp.html", len(d)
         if t == "docx":
             doc = f'<?xml version="1.0"?>{ents}<w:document {corpus.W}><w:body><w:p><w:r><w:t>{ref}</w:t></w:r></w:p></w:body></w:document>'
-            d = corpus._zip([("[Content_Types].xml", corpus.CT.encode()), ("_rels/.rels", corpus.RELS.encode()), ("word/document.xml", doc.encode()), ("docProps/core.xml", corpus.CORE.encode())])
+            d = corpus._zip([("[Content_Types].xml", corpus.CT.encode()), ("_rels/.rels", corpus.RELS.encode()), ("word/document.xml", xml_bytes(doc)), ("docProps/core.xml", corpus.CORE.encode())])
             return d, "amp.docx", len(d)
         if t == "odt":
             content = f'<?xml version="1.0"?>{ents}<office:document-content {corpus.ODF_NS}><office:body><office:text><text:p>{ref}</text:p></office:text></office:body></office:document-content>'
             mt = "application/vnd.oasis.opendocument.text"
-            d = corpus._zip([("mimetype", mt.encode()), ("content.xml", content.encode()), ("meta.xml", corpus.ODF_META.encode()), ("META-INF/manifest.xml", corpus.ODF_MANIFEST.format(mt=mt).encode())])
+            d = corpus._zip([("mimetype", mt.encode()), ("content.xml", xml_bytes(content)), ("meta.xml", corpus.ODF_META.encode()), ("META-INF/manifest.xml", corpus.ODF_MANIFEST.format(mt=mt).encode())])
             return d, "amp.odt", len(d)
         base = _docs["gen/a.epub"]
         names = blockdev.zip_members(base)
@@ -212,7 +220,7 @@ def build_amp(c) -> tuple[bytes, str, int]:
             for n in names:
                 payload = zin.read(n)
                 if n.endswith("c1.xhtml"):
-                    payload = (f'<?xml version="1.0"?>{ents}<html xmlns="http://www.w3.org/1999/xhtml"><body><p>{ref}</p></body></html>').encode()
+                    payload = xml_bytes(f'<?xml version="1.0"?>{ents}<html xmlns="http://www.w3.org/1999/xhtml"><body><p>{ref}</p></body></html>')
                 zo.writestr(n, payload)
         d = out.getvalue()
         return d, "amp.epub", len(d)
@@ -499,7 +507,7 @@ def _family_sig(case) -> str:
         if f == "deep":
             return f"deep|{case['fmt']}" + (f"|{case['shape']}" if case.get("shape", "balanced") != "balanced" else "")
         if f == "entities":
-            return f"entities|{case['target']}"
+            return f"entities|{case['target']}" + ("" if case.get("enc", "utf-8") == "utf-8" else "|utf16")
         if f == "lying_7z":
             return f"lying_7z|{case['method']}"
         if f == "pdf_loop":
